@@ -353,7 +353,7 @@ def run(rep, tier, seed, keep=False):
         rep.extra['delegates'] = {'soup': nd, 'soup_accepted': ndacc, 'argument_lists': nd2, 'argument_lists_accepted': nd2acc}
         # customised tables
         calls_list = insert_calls(tier, rng)
-        r, dump = gen(wd, 'cust', 'standard', calls_list, ['*', '+', 'or', '->', '**', '~'], ['-', 'not', '~'], ['!', '~'], 2, 1,
+        r, dump = gen(wd, 'cust', 'standard', calls_list, ['.', '*', '+', 'or', '->', '**', '~'], ['-', 'not', '~'], ['!', '~'], 2, 1,
                       ['atom'] if quick else ['atom', 'par', 'idx'])
         rep.tlc('Grammar/G+M insert_operator tables', r)
         by_calls = {}
@@ -387,6 +387,44 @@ def run(rep, tier, seed, keep=False):
                     if got != want:
                         rep.violation('C02/factory-history/tree', 'factory history create();%s: engine created after %r parses %r as %r, its table dictates %r' % (
                             ''.join(' insert%r; create();' % (c,) for c in calls), prefix, text, got, want), {'base': 'standard', 'calls': calls, 'text': text})
+        # several factories in one process: customising one must not leak into a factory created later (of any kind)
+        from yaql import legacy as _legacy
+        import yaql as _yaql
+        from yaql.language import factory as _f2
+        pristine = {'legacy': [st for st in tlaval.parse_dump(wd + '/leg.dump') if st['out']['st'] == 'ok' and st['out']['ok']],
+                    'standard': [st for st in tlaval.parse_dump(wd + '/std.dump') if st['out']['st'] == 'ok' and st['out']['ok']]}
+        mk = {'legacy': lambda: _legacy.YaqlFactory(), 'standard': lambda: _yaql.YaqlFactory(), 'nokw': lambda: _yaql.YaqlFactory(keyword_operator=None)}
+        nleak = 0
+        for first in ('legacy', 'nokw', 'standard'):
+            try:
+                a_ = mk[first]()
+                a_.insert_operator('->', True, '<-', _f2.OperatorType.BINARY_RIGHT_ASSOCIATIVE, False)
+                a_.insert_operator(None, True, '**', _f2.OperatorType.BINARY_LEFT_ASSOCIATIVE, True)
+                a_.create()
+            except Exception as e:  # noqa
+                rep.violation('C02/factory-isolation/customised-factory', 'customising a fresh %s factory failed: %r' % (first, e), {'base': first, 'calls': (), 'text': ''})
+                continue
+            for second in ('legacy', 'standard'):
+                try:
+                    eng2 = mk[second]().create()
+                except Exception as e:  # noqa
+                    rep.violation('C02/factory-isolation/create', 'after customising a %s factory, a new %s factory cannot create an engine: %r' % (first, second, e),
+                                  {'base': second, 'calls': (), 'text': ''})
+                    continue
+                for st in rng.sample(pristine[second], min(len(pristine[second]), 60 if quick else 600)):
+                    toks = [str(t) for t in st['toks']]
+                    text, sub, atoms = concretise(toks, rng, substitute=False)
+                    want = mtree(st['out']['t'], sub)
+                    try:
+                        got = rtree(eng2(text).expression, atoms)
+                    except Exception as e:  # noqa
+                        got = ('raises', type(e).__name__, str(e)[:80])
+                    nleak += 1
+                    rep.evaluations += 1
+                    if got != want:
+                        rep.violation('C02/factory-isolation/tree', 'after customising a %s factory, a new %s factory parses %r as %r, its table dictates %r' % (
+                            first, second, text, got, want), {'base': second, 'calls': (), 'text': text})
+        rep.extra['factory_isolation_parses'] = nleak
         rep.extra['factory_history_parses'] = nhist
         rep.extra['replayed'] = {'standard': n1, 'legacy': n2, 'custom': n3, 'custom_tables': len(calls_list),
                                  'real_engines_built': len(engines.cache)}
